@@ -256,6 +256,8 @@ def account(ctx, case, r):
 
 
 def run(ctx):
+    from props import cli_proc
+    cli_proc.stream(ctx, ['C17'])
     rng = ctx.rng
     for case in corpus():
         account(ctx, case, exec_case(ctx, case))
@@ -269,16 +271,23 @@ def run(ctx):
 
 
 def replay_case(ctx, case):
+    if isinstance(case, dict) and case.get('kind') == 'cli-process':
+        from props import cli_proc
+        return cli_proc.replay(case)
     r = exec_case(ctx, case)
     return {'holds': r['holds'], 'model_agrees': r['agree'], 'why': r['why'], 'property_expects': r['expected'],
             'implementation': r['impl'], 'model': r['model']}
 
 
 def classify(case, detail):
+    if isinstance(case, dict) and case.get('kind') == 'cli-process':
+        return None
     return None
 
 
 def shrink(ctx, case):
+    if isinstance(case, dict) and case.get('kind') == 'cli-process':
+        return case
     def bad(c):
         try:
             return not exec_case(ctx, c)['holds']
